@@ -138,8 +138,8 @@ func (c *Ctx) gatedOpCtx(fn *ssa.Function, at ssa.Instruction, v ssa.Value, dept
 				if !ok || ci.Common().StaticCallee() != top {
 					continue
 				}
-				if _, isCall := in.(*ssa.Call); !isCall {
-					return "", "the helper " + shortFn(top) + " that dispatches is started with go/defer at " + c.ipos(in)
+				if _, isDefer := in.(*ssa.Defer); isDefer {
+					return "", "the helper " + shortFn(top) + " that dispatches is deferred at " + c.ipos(in)
 				}
 				n++
 				if idx >= len(ci.Common().Args) {
